@@ -14,6 +14,7 @@ HEAP_SCHEMA = {
     "put_time": ("num", "real"),
     "filter": ("obj", "filter"),
     "fleet_entry_time": ("num", "real"),
+    "conveyor_exit_time": ("opt", ("num", "real")),
     "fleet_exit_time": ("num", "real"),
     "length": ("num", "real"),
     "conveyor_entry_time": ("num", "real"),
